@@ -112,7 +112,7 @@ def cache_table(fb):
     fields = [x["name"] for x in fb.adt("interpreter::interpreter::Interpreter")["variants"][0]["fields"]]
     rows = []
     fv = dict((n, i) for i, n in fb.variants("library_factory::GenericLibraryFactory"))
-    for scenario, fkind in [(sc, "AST") for sc in ("first", "second", "instantiation-fails", "first-from-file", "file-not-found")] + \
+    for scenario, fkind in [(sc, "AST") for sc in ("first", "second", "instantiation-fails", "first-from-file", "file-not-found", "first-while-another-is-cached")] + \
             [("first", "Native"), ("second", "Native")]:
         name = Val("library-name")
         located = Enum(0, [name, some([3, 1])])
@@ -133,18 +133,27 @@ def cache_table(fb):
         NF = Val("library-file-not-found")
         if scenario == "second":
             cache.d[machine.key_of(name)] = (name, inst)
+        other, other_inst = Val("another-library"), Val("instance-of-another-library")
+        if scenario == "first-while-another-is-cached":
+            cache.d[machine.key_of(other)] = (other, other_inst)
         selfv = fresh_fields(fb)
         selfv[fields.index("libraries")] = cache
         selfv[fields.index("lib_loader")] = [factories]
         ev = []
+        li = fields.index("libraries")
+
+        def seen_during(a):
+            # what the interpreter's instance table holds at the moment a library is being built (its body may import)
+            cur = absint.deref(a[0][li]) if a and isinstance(a[0], list) and len(a[0]) > li else None
+            return [v for k0, v in cur.d.values()] if isinstance(cur, Map) else None
 
         def icpt(mc, c, a, tt, g, scenario=scenario, factory=factory, inst=inst, E=E, NF=NF, ev=ev):
             if c == ITP + "new_library":
-                ev.append(("instantiate", a[1] if len(a) > 1 else None))
+                ev.append(("instantiate", a[1] if len(a) > 1 else None, seen_during(a)))
                 return err(E) if scenario == "instantiation-fails" else ok(inst)
             if c == ITP + "eval_library_definition":
                 # instantiating an AST factory, wherever that is written
-                ev.append(("instantiate", factory if contains_id(a[1] if len(a) > 1 else None, factory.fields[0].fields[0]) else a[1:]))
+                ev.append(("instantiate", factory if contains_id(a[1] if len(a) > 1 else None, factory.fields[0].fields[0]) else a[1:], seen_during(a)))
                 return err(E) if scenario == "instantiation-fails" else ok(inst)
             if c.endswith("library::Library::new") or c.endswith("Library::<R>::new"):
                 # instantiating a native factory: Library::new(name, constructor())
@@ -163,8 +172,9 @@ def cache_table(fb):
         except (absint.Stuck, absint.Loop) as e:
             rows.append((key, {"stuck": str(e)}))
             continue
-        rows.append((key, {"result": res, "events": ev, "cached": [v for k, v in cache.d.values()], "inst": inst, "factory": factory, "error": E,
-                           "registered": len(factories.d), "not_found": NF}))
+        cur_cache = absint.deref(selfv[li])
+        rows.append((key, {"result": res, "events": ev, "cached": [v for k, v in (cur_cache.d.values() if isinstance(cur_cache, Map) else cache.d.values())],
+                           "inst": inst, "factory": factory, "error": E, "registered": len(factories.d), "not_found": NF, "other_inst": other_inst}))
     return f, rows
 
 
@@ -187,6 +197,15 @@ def rule_cache(ctx, rule_single, rule_negative):
                 all(e[1] is d["factory"] or contains_id(e[1], d["factory"]) for e in d["events"] if e[0] == "instantiate")
             msg = "the first import of a registered library instantiates %d time(s), caches %s and yields %r; expected one instantiation from the " \
                   "registered factory, cached" % (n_inst, d["cached"], res)
+        elif scenario == "first-while-another-is-cached":
+            during = [e[2] for e in d["events"] if e[0] == "instantiate" and len(e) > 2]
+            vis = bool(during) and all(s_ is None or any(x is d["other_inst"] for x in s_) for s_ in during)
+            good = getattr(res, "name", None) == "Ok" and n_inst == 1 and any(x is d["inst"] for x in d["cached"]) and \
+                any(x is d["other_inst"] for x in d["cached"]) and vis
+            msg = "importing a library while another one is already instantiated: during the build the interpreter's instance table %s the " \
+                  "other instance, afterwards it holds %s; expected the other instance visible throughout (the body being built may import " \
+                  "it: it must get that instance, not build a second one) and both cached afterwards" % (
+                      "holds" if vis else "does NOT hold", d["cached"])
         elif scenario == "first-from-file":
             good = getattr(res, "name", None) == "Ok" and contains_id(res, d["inst"]) and n_inst == 1 and any(x is d["inst"] for x in d["cached"])
             msg = "the first import of a library found on disk instantiates %d time(s), caches %s and yields %r; expected one instantiation, " \
@@ -282,6 +301,103 @@ def definition_table(fb):
         rows.append((scenario, {"result": res, "events": ev, "frames": frames, "importer_env": importer_env, "I1": I1, "S": (S1, S2), "VA": VA, "VB": VB,
                                 "export_locs": [machine.key_of(x.fields[1]) for x in exports]}))
     return f, rows
+
+
+def body_failure_table(fb):
+    """eval_library_definition on a library whose import / first body statement (an expression, a definition) fails: the error comes
+    back, nothing after the failing declaration is processed"""
+    f = fb.find(ITP + "eval_library_definition")
+    ld = dict((n, i) for i, n in fb.variants("parser::parser::LibraryDeclaration"))
+    st = dict((n, i) for i, n in fb.variants("parser::parser::Statement"))
+    fields = [x["name"] for x in fb.adt("interpreter::interpreter::Interpreter")["variants"][0]["fields"]]
+    rows = []
+    for scenario in ("import-fails", "body-expression-fails", "body-definition-fails"):
+        def located(x, n=[0]):
+            n[0] += 1
+            e = Enum(0, [x, some([400 + n[0], 2])])
+            e.name, e.adt = "Located", "error::Located"
+            return e
+
+        def decl(name, *fs):
+            e = Enum(ld[name], list(fs))
+            e.name, e.adt = name, "parser::parser::LibraryDeclaration"
+            return located(e)
+        X1, X2 = Val("expression-1"), Val("expression-2")
+        D1 = Val("definition-1")
+        s_expr = Enum(st["Expression"], [X1])
+        s_expr.name, s_expr.adt = "Expression", "parser::parser::Statement"
+        s_def = Enum(st["Definition"], [D1])
+        s_def.name, s_def.adt = "Definition", "parser::parser::Statement"
+        s_last = Enum(st["Expression"], [X2])
+        s_last.name, s_last.adt = "Expression", "parser::parser::Statement"
+        first = s_def if scenario == "body-definition-fails" else s_expr
+        I1 = Val("import-declaration")
+        libdef = [Val("library-name"), [decl("ImportDeclaration", I1), decl("Begin", [first, s_last])]]
+        selfv = fresh_fields(fb)
+        selfv[fields.index("env")] = Val("importer-env")
+        E = Val("the-error")
+        ev = []
+
+        def icpt(mc, c, a, tt, g, scenario=scenario, first=first, E=E, ev=ev, X1=X1, D1=D1):
+            if c == ITP + "eval_import":
+                ev.append("import")
+                return err(E) if scenario == "import-fails" else ok([])
+            if c == ITP + "eval_expression_or_definition":
+                which = a[1] if len(a) > 1 else None
+                is_first = which is first or contains_id(which, X1) or contains_id(which, D1)
+                ev.append("first-statement" if is_first else "later-statement")
+                return err(E) if (is_first and scenario != "import-fails") else ok(none())
+            if c == ITP + "eval_expression":
+                which = a[0] if a else None
+                is_first = which is X1 or contains_id(which, X1)
+                ev.append("first-statement" if is_first else "later-statement")
+                return err(E) if (is_first and scenario == "body-expression-fails") else ok(Val("value"))
+            if c == "environment::LexicalScope::new":
+                return Val("fresh-root-env")
+            if c == "environment::LexicalScope::new_child":
+                return Val("child-env")
+            if c in ("environment::LexicalScope::get", "environment::LexicalScope::get_mut"):
+                return none()
+            if c == "environment::LexicalScope::define":
+                return []
+            return NOT
+        mc = Machine(fb, intercept=icpt, max_visits=10, budget=800)
+        try:
+            res = mc.run(f, [selfv, libdef])
+        except (absint.Stuck, absint.Loop) as e:
+            rows.append((scenario, {"stuck": str(e)}))
+            continue
+        rows.append((scenario, {"result": res, "events": list(ev), "error": E}))
+    return f, rows
+
+
+def rule_body_failures(ctx, rule):
+    fb = ctx.fb()
+    from .ctx import where_of
+    try:
+        f, rows = body_failure_table(fb)
+    except mir.AnchorMissing as e:
+        ctx.undecided(rule, "define-library/failures", str(e))
+        return 0
+    decided = 0
+    for scenario, d in rows:
+        key = "define-library/%s" % scenario
+        if "stuck" in d:
+            ctx.undecided(rule, key, "cannot follow eval_library_definition (%s)" % d["stuck"], where_of(f))
+            continue
+        decided += 1
+        res, ev = d["result"], d["events"]
+        want_ev = ["import"] if scenario == "import-fails" else ["import", "first-statement"]
+        good = getattr(res, "name", None) == "Err" and contains_id(res, d["error"]) and ev == want_ev
+        ctx.inst(rule, key, {"fails_with_the_error": getattr(res, "name", None) == "Err", "processed": ev})
+        ctx.oblige(good)
+        if not good:
+            ctx.report(rule, key, "a library whose %s fails is loaded as %s after processing %s; expected the underlying error and nothing "
+                       "processed after the failing declaration (a library that faults while being evaluated must not be imported as if it had "
+                       "succeeded)" % ({"import-fails": "import declaration", "body-expression-fails": "first body statement, an expression,",
+                                        "body-definition-fails": "first body statement, a definition,"}[scenario],
+                                       "Err(the error)" if getattr(res, "name", None) == "Err" and contains_id(res, d["error"]) else repr(getattr(res, "name", res)), ev), where_of(f))
+    return decided
 
 
 def rule_definition(ctx, rule_env, rule_exports):
